@@ -26,6 +26,7 @@ type c15Script struct {
 	Caches []int     `json:"caches"` // per instance: 0, 1, or -1 for the default size
 	Init   int       `json:"init_instance"`
 	Steps  []c15Step `json:"steps"`
+	Dyn    string    `json:"dyn,omitempty"` // "" = static exchange; else a dynamic exchange that declares its input schema at init and is fed inputs of this (castable) type
 }
 
 type c15Case struct {
@@ -42,6 +43,7 @@ func genC15(t *rapid.T) c15Case {
 			s.Caches = append(s.Caches, []int{0, 1, 1, 2, -1, -1}[rapid.IntRange(0, 5).Draw(t, "cache")])
 		}
 		s.Init = rapid.IntRange(0, ninst-1).Draw(t, "init")
+		s.Dyn = []string{"", "", "int32", "int16"}[rapid.IntRange(0, 3).Draw(t, "dyn")]
 		slot := 0
 		nsteps := rapid.IntRange(2, 5).Draw(t, "nsteps")
 		for k := 0; k < nsteps; k++ {
@@ -110,7 +112,16 @@ func runScript(idx int, s c15Script) (r c15Result) {
 		handlers[i] = newHTTP(o)
 	}
 	id := fmt.Sprintf("c15-%d", idx)
-	call := lib.CallSpec{Kind: "stream", Method: "s_exch", CancelAt: -1, Stream: &lib.StreamScript{ID: id, InitOutcome: "ok"}}
+	method := "s_exch"
+	call := lib.CallSpec{Kind: "stream", Method: method, CancelAt: -1, Stream: &lib.StreamScript{ID: id, InitOutcome: "ok"}}
+	input := lib.InputSpec{Vals: []int64{7}}
+	if s.Dyn != "" {
+		method = "s_dyn"
+		call.Method = method
+		call.Stream.DynKind, call.Stream.DynInput = "exchange", true
+		input.Type = s.Dyn
+		r.labels = append(r.labels, "dynamic-cast-input")
+	}
 	// init inside a window so that the call token's CreatedAt second is unambiguous
 	t0 := waitForWindow(time.Now())
 	init := lib.HTTPInit(handlers[s.Init], "", call, nil)
@@ -147,16 +158,24 @@ func runScript(idx int, s c15Script) (r c15Result) {
 		}
 		decisions := make([]bool, len(handlers))
 		fresh := make([]string, len(handlers))
+		outputs := make([]string, len(handlers))
 		begin := time.Now()
 		for _, i := range probe {
 			h := handlers[i]
-			x := lib.HTTPContinue(h, "", "s_exch", lib.Int64Batch(lib.InSchema, 1), cursor, init.CallToken, nil, nil)
+			x := lib.HTTPContinue(h, "", method, input.Batch(), cursor, init.CallToken, nil, nil)
 			if x.Resp.Panic != "" {
 				violate("C15/panic", "probe panicked: %s", lib.Short(x.Resp.Panic, 200))
 				return
 			}
 			decisions[i] = x.Resp.Status == 200 && !x.Resp.IsRPCError() && x.Cursor != ""
 			fresh[i] = x.Cursor
+			for _, sm := range x.Streams {
+				for _, b := range sm.Batches {
+					if k := b.Kind(); k != "log" && k != "error" && b.Rec != nil {
+						outputs[i] += fmt.Sprintf("%s%v;", b.Rec.Schema(), lib.Rows(b.Rec))
+					}
+				}
+			}
 		}
 		if time.Since(begin) > 250*time.Millisecond || time.Now().Unix() != sec {
 			r.labels = append(r.labels, "discarded:slow-probe")
@@ -175,6 +194,15 @@ func runScript(idx int, s c15Script) (r c15Result) {
 			if decisions[i] != decisions[first] {
 				violate("C15/instances-disagree", "at +%.1fs (call token age %.1fs, cursor age %.1fs) probed instances %v decide %v (caches %v, instances that saw the stream before: %v)",
 					now.Sub(t0).Seconds(), now.Sub(time.Unix(callCreated, 0)).Seconds(), now.Sub(time.Unix(cursorCreated, 0)).Seconds(), probe, decisions, s.Caches, seen)
+				return
+			}
+		}
+		for _, i := range probe {
+			// the same continuation of the same state: what comes back must not
+			// depend on which instance (cache hit, miss, disabled) served it
+			if decisions[first] && outputs[i] != outputs[first] {
+				violate("C15/instances-answer-differently", "at +%.1fs the same continuation (input %s) is answered %q by instance %d and %q by instance %d (caches %v, instances that saw the stream before: %v)",
+					now.Sub(t0).Seconds(), input.Type, lib.Short(outputs[first], 200), first, lib.Short(outputs[i], 200), i, s.Caches, seen)
 				return
 			}
 		}
@@ -224,10 +252,10 @@ func runC15(c c15Case) (out lib.Outcome) {
 var propC15 = lib.Prop[c15Case]{
 	ID: "C15",
 	Rule: "each case runs 16 timed exchange scripts concurrently: TTL 2-3 s, 3-4 server instances sharing the token key with call-cache sizes from {0,1,2,default}, 2-5 continuation steps at half-second slots up to TTL+1.5 s after init, each step presenting the same continuation to a drawn subset of the instances (some of which first serve two unrelated streams, evicting small caches) and carrying on with a drawn instance's fresh cursor; probes are placed >= 300 ms from every whole-second expiry boundary (ages are whole seconds) and a step whose probes took too long is discarded, not judged. " +
-		"Oracle: all instances decide alike, and the decision is 'accept iff cursor and call token are both within TTL'. Non-trivial: a probe after the call token's expiry on an instance that saw the stream earlier.",
+		"A third of the scripts run a dynamic exchange that declared its input schema at init and is fed castable int32/int16 inputs. Oracle: all instances decide alike and answer the same continuation with the same data, and the decision is 'accept iff cursor and call token are both within TTL'. Non-trivial: a probe after the call token's expiry on an instance that saw the stream earlier.",
 	Gen:          genC15,
 	Run:          runC15,
-	Essential:    []string{"probe-after-call-expiry", "completed"},
+	Essential:    []string{"probe-after-call-expiry", "completed", "dynamic-cast-input"},
 	EssentialMin: 3,
 	Assumptions:  []string{"wall-clock test: soundness rests on probing away from second boundaries and discarding slow steps"},
 }
